@@ -369,8 +369,14 @@ def hilbert_cpu_list(meta, scaling, select, infofile):
             inds = np.argwhere(func_test.values).ravel()
             start = xyz_centers[inds.min()] - (half_dxmin * scaling.units)
             end = xyz_centers[inds.max()] + (half_dxmin * scaling.units)
-            bounding_box["{}min".format(c)] = start._array / box_size
-            bounding_box["{}max".format(c)] = end._array / box_size
+            # The cells of an oct are stored in the file of the CPU that owns the
+            # oct, and ownership follows the Hilbert key of the oct centre, which
+            # lies half a cell size away from the centres of its cells. Pad the box
+            # by half the size of the coarsest leaf cells, so that the search below
+            # also covers the octs of qualifying cells larger than the box itself.
+            pad = 0.5 ** (min(meta["levelmin"], meta["lmax"]) + 1)
+            bounding_box["{}min".format(c)] = max(start._array / box_size - pad, 0.0)
+            bounding_box["{}max".format(c)] = min(end._array / box_size + pad, 1.0)
 
     if new_bbox:
         return _get_cpu_list(
